@@ -142,6 +142,7 @@ def _compute_integral_ir(
     argument_shape: tuple[int, ...],
     visualise: bool,
     p: dict,
+    single_point_rule_among_several: bool = False,
 ) -> tuple[
     dict[str, npt.NDArray[np.float64]],
     dict[str, _table_types],
@@ -272,7 +273,7 @@ def _compute_integral_ir(
                 F.nodes[i]["tr"] = tr
 
     # Attach 'status' to each node: 'inactive', 'piecewise' or 'varying'
-    analyse_dependencies(F, mt_table_reference)
+    analyse_dependencies(F, mt_table_reference, single_point_rule_among_several)
 
     # Output diagnostic graph as pdf
     if visualise:
@@ -446,6 +447,8 @@ def compute_integral_ir(
                 argument_shape,
                 visualise,
                 p,
+                single_point_rule_among_several=len(integrands_on_domain) > 1
+                and quadrature_rule.points.shape[0] == 1,
             )
 
             # Add tables and types for this quadrature rule to global tables dict
@@ -479,7 +482,7 @@ def compute_integral_ir(
     )
 
 
-def analyse_dependencies(F, mt_unique_table_reference):
+def analyse_dependencies(F, mt_unique_table_reference, single_point_rule_among_several=False):
     """Analyse dependencies.
 
     Sets 'status' of all nodes to either: 'inactive', 'piecewise' or 'varying'
@@ -511,6 +514,13 @@ def analyse_dependencies(F, mt_unique_table_reference):
             ttype = tr.ttype
             # Check if table computations have revealed values varying over points
             if ttype in varying_ttypes:
+                varying_indices.append(i)
+            elif single_point_rule_among_several and ttype in ("fixed", "piecewise"):
+                # Every table of a one-point rule is constant over "its points".
+                # If the kernel has other quadrature rules too, the value still
+                # belongs to this rule's point: treat it as varying, so that it is
+                # defined inside this rule's loop and not shared with the other
+                # rules through the piecewise scope
                 varying_indices.append(i)
             else:
                 if ttype not in ("fixed", "piecewise", "ones", "zeros"):
